@@ -197,6 +197,11 @@ def exhaustive(tier):
     for depth in (1, 2):
         for order in ("validator-first", "fields-first"):
             yield {"mode": "declared-order", "depth": depth, "order": order}
+    # a schema-level validator that rejects by raising something other than ValueError (a failed look-up, an application
+    # error): the load / validate() raises the library's validation error all the same, and collecting mode returns a list
+    for exc in ("key", "runtime", "lookup", "zero", "custom", "attribute", "index", "value"):
+        for place in ("root", "nested", "deep", "list-item", "configtype"):
+            yield {"mode": "odd-schema-validator", "exc": exc, "place": place}
     # required fields of every emptiable kind x the other options that speak about length or content x empty values (as
     # given, after stripping, an empty container) x placement x route: a load / validate() that returns leaves none empty
     for kind in ("str", "str-strip", "host", "url", "filename", "loglevel", "list", "typed-list", "dict", "typed-dict", "secure"):
@@ -204,6 +209,78 @@ def exhaustive(tier):
             for place in ("root", "nested", "list-item"):
                 for route in ("load_tree", "loads-json", "loads-yaml", "default+validate", "ctor"):
                     yield {"mode": "required-empty", "kind": kind, "min_len": min_len, "place": place, "route": route}
+
+
+class _AppError(Exception):
+    pass
+
+
+def _odd_schema_validator_case(case, R):
+    cc = sandbox._state["cc"]
+    exc_kind, place = case["exc"], case["place"]
+    R.label("odd-schema-validator", "odd-schema-validator:" + exc_kind)
+    R.nontrivial = True
+    calls = []
+
+    def rule(cfg):
+        calls.append(1)
+        if cfg.lo is not None and cfg.hi is not None and cfg.lo > cfg.hi:
+            raise {"key": KeyError, "runtime": RuntimeError, "lookup": LookupError, "zero": ZeroDivisionError, "custom": _AppError, "attribute": AttributeError,
+                   "index": IndexError, "value": ValueError}[exc_kind]("lo must not exceed hi")
+    part = cc.Schema()
+    part.lo = cc.IntField(default=0)
+    part.hi = cc.IntField(default=10)
+    cc.validator(part)(rule)
+    schema = cc.Schema()
+    schema.other = cc.IntField(default=1)
+    bad, good = {"lo": 5, "hi": 2}, {"lo": 1, "hi": 2}
+    if place == "root":
+        schema = part
+        schema.other = cc.IntField(default=1)
+        wrap = lambda t: t
+    elif place == "nested":
+        schema.part = part
+        wrap = lambda t: {"part": t}
+    elif place == "deep":
+        schema.a.b.part = part
+        wrap = lambda t: {"a": {"b": {"part": t}}}
+    elif place == "configtype":
+        schema.part = cc.make_type(part, "OddValidated", module=__name__)
+        wrap = lambda t: {"part": t}
+    else:
+        schema.rows = cc.ListField(part)
+        wrap = lambda t: {"rows": [dict(good), t]}
+    for route in ("load_tree", "loads-json", "loads-yaml", "validate", "collect"):
+        for tree, should_pass in ((good, True), (bad, False)):
+            cfg = schema()
+            err = None
+            result = None
+            try:
+                if route == "load_tree":
+                    cfg.load_tree(wrap(dict(tree)))
+                elif route.startswith("loads"):
+                    fmt = route.split("-")[1]
+                    cfg.loads(cc.ConfigFormat.get(fmt).dumps(cfg, wrap(dict(tree))), fmt)
+                else:
+                    # put the state in through leaf assignments (each valid on its own), then validate explicitly
+                    if place == "list-item":
+                        continue
+                    target = cfg if place == "root" else cfg.part if place in ("nested", "configtype") else cfg.a.b.part
+                    target.hi = 1000
+                    target.lo, target.hi = tree["lo"], tree["hi"]
+                    result = cfg.validate(collect_errors=(route == "collect"))
+            except Exception as exc:
+                err = exc
+            site = "odd-schema-validator:%s:%s" % (route, place)
+            if should_pass:
+                R.check(err is None and not result, "ran", site + ":valid", lambda: "valid data: %s raised %r / returned %r" % (route, err, result))
+                continue
+            if route == "collect":
+                R.check(err is None and result, "collect", site, lambda: "collecting mode with a schema validator that raises %s: %s" % (
+                    exc_kind, "raised %r" % (err,) if err else "returned %r" % (result,)))
+            else:
+                R.check(isinstance(err, cc.ValidationError), "load-sound", site,
+                        lambda: "a schema validator rejecting by %s: %s %s" % (exc_kind, route, "returned normally" if err is None else "raised %r instead of the validation error" % (err,)))
 
 
 def _required_empty_case(case, R):
@@ -419,6 +496,8 @@ def _reinsert_case(case, R):
 def run_case(case, R):
     if case.get("mode") == "reinsert":
         return _reinsert_case(case, R)
+    if case.get("mode") == "odd-schema-validator":
+        return _odd_schema_validator_case(case, R)
     if case.get("mode") == "required-empty":
         return _required_empty_case(case, R)
     if case.get("mode") == "declared-order":
